@@ -266,6 +266,29 @@ def _strip_arith(v: Term) -> Term:
     return v
 
 
+def rule_r1_coalition_args(prog: Program, col: Collector) -> None:
+    """Coalition(x) in regret.py decodes a bitmask: x must live in an id space (MID / COAL), never in a rank / player-id space."""
+    col.rule("R1b", "every Coalition(x) in regret.py wraps a bitmask id (MID/COAL), not a rank or a re-indexed coalition number", 3)
+    sp = Spaces(prog)
+    for name, ref in sp.methods.items():
+        ft = fterms(prog, ref)
+        seen = set()
+        for ev in ft.events:
+            for v in ev.data.values():
+                if not isinstance(v, tuple):
+                    continue
+                for s in subterms(v):
+                    if is_call_to(s, P + "coalitions.Coalition") and len(s[2]) == 1 and s not in seen:
+                        seen.add(s)
+                        space = sp.value_space(s[2][0], ft)
+                        if space is None:
+                            col.undecidable(ref.where(ev.node), ref.short, f"Coalition({short(s[2][0], 40)}): space of the argument not understood")
+                        else:
+                            col.check(space in (MID, COAL), ref.where(ev.node), ref.short, f"Coalition({short(s[2][0], 40)}) wraps a {space} value",
+                                      construct=f"coalition-of:{space}", necessity="decoding a rank as if it were a bitmask yields the wrong set of used coalitions: "
+                                      "the fallback strategy then zeroes the wrong entries (support on already revealed coalitions)")
+
+
 def rule_r2_save_load(prog: Program, col: Collector) -> None:
     col.rule("R2", "save/load agreement: params.json keys, file names, constructor argument order, every mutable state attribute saved and restored", 8)
     mm = prog.methods(CLS)
@@ -446,9 +469,11 @@ def rule_r345(prog: Program, col: Collector) -> None:
             if is_call_to(itr, "range") and not cd and combs[0][2][1] == el:
                 args = itr[2]
                 hi = args[0] if len(args) == 1 else (args[1] if len(args) == 2 and args[0] == ("const", 0) else None)
+                npar = ("param", rp[0])
+                nc_term = ("bin", "-", ("bin", "-", ("bin", "**", ("const", 2), npar), npar), ("const", 2))
                 okrange = hi is not None and hi[0] == "bin" and hi[1] == "+" and hi[3] == ("const", 1) and is_call_to(hi[2], "min") \
-                    and has_subterm(hi[2], ("param", rp[1]))
-    col.check(okrange, ref.where(), ref.short, "sizes ascend over range(min(number_of_coalitions, limit) + 1)", construct="meta-range",
+                    and len(hi[2][2]) == 2 and set(hi[2][2]) == {nc_term, ("param", rp[1])}
+    col.check(okrange, ref.where(), ref.short, "sizes ascend over range(min(2**n - n - 2, limit) + 1): the limit is clipped by the number of viable coalitions", construct="meta-range",
               necessity="ranks must be ordered by set size (top-down / bottom-up sweeps rely on it) and include the root (size 0)")
     ids = [s for s in subterms(rv) if is_call_to(s, "map") and len(s[2]) == 2 and s[2][0][0] == "lambda"]
     okid = False
